@@ -39,7 +39,7 @@ func init() {
 
 const (
 	c01CaseCPUBudget = 20  // seconds of CPU in a shared worker before the case is re-run alone
-	c01SoloCPUBudget = 120 // seconds of CPU for the solo re-run
+	c01SoloCPUBudget = 600 // seconds of CPU for the solo re-run (quadratic snippet rendering of ~10^4 diagnostics on one 64 KiB line needs minutes)
 )
 
 // ---------------------------------------------------------------------------
@@ -624,8 +624,8 @@ func (p *c01Parent) absorb(t c01Task, res *c01Result) {
 
 func runC01(r *Run) {
 	r.Rule = "hostile inputs on the four channels (workflow, local action metadata, local reusable workflow, actionlint.yaml): complete YAML kind x tag x position matrix over maximal templates, raw YAML snippets, seeded byte mutations of the repository's corpus, expression fuzz at 32 expression positions, hostile strings at 32 string-parsing positions, scripts up to 300 KB handed to (fake) external tools; each through LintFile / LintFiles / Lint or the real CLI, a share under the -race build (checkptr). Non-trivial = distinct case whose input was visibly handled (>=1 diagnostic or a fatal error) rather than being accepted as clean."
-	r.Assume("bounded time is observed as: no case exceeds 120 s CPU alone, and no worker is quiescent (no CPU progress, all threads asleep, no children) with an unfinished case")
-	r.Assume("inputs are bounded to 256 KiB per file")
+	r.Assume("bounded time is observed as: no case exceeds 600 s CPU alone, and no worker is quiescent (no CPU progress, all threads asleep, no children) with an unfinished case")
+	r.Assume("hostile files are bounded to 64 KiB (the quantifier's bound); only the tool-scripts family uses larger run: scripts (up to 300 KB)")
 	fams := c01Families(r.Tier)
 	if r.ReplayOf != nil {
 		c01Replay(r, fams)
